@@ -1,6 +1,7 @@
 package main
 
 import (
+	"sync/atomic"
 	"fmt"
 	"io/fs"
 	"math/rand"
@@ -176,3 +177,5 @@ echo "goderive exit=$?"
 %s
 `, goderiveArgs, followUp)
 }
+
+func atomicAdd(p *int64, d int64) int64 { return atomic.AddInt64(p, d) }
